@@ -48,8 +48,9 @@ var specialForms = []string{"and", "or", "cond", "quote", "def", "mdef", "fn", "
 
 var argShapes = []string{"x", "1", `"s"`, "nil", "(list 1)", "()", "[1 2]", "[]", "{a: 1}", "a.b", "(quote q)", "(and)", "(fn [a] a)", "a:", "%", `([] \ 2)`}
 
-// the last value is a size that Go's own range checks accept and no machine has the memory for
-var valuePalette = []string{"0", "1", "-1", `"s"`, `""`, "nil", "true", "[]", "[1 2]", "(list 1 2)", "(hash a: 1)", "(quote q)", "1.5", "'c'", "(fn [a] a)", hugeSize}
+// (begin) is an expression with nothing to evaluate; the last value is a size that Go's own range checks accept
+// and no machine has the memory for
+var valuePalette = []string{"0", "1", "-1", `"s"`, `""`, "nil", "true", "[]", "[1 2]", "(list 1 2)", "(hash a: 1)", "(quote q)", "1.5", "'c'", "(fn [a] a)", "(begin)", hugeSize}
 
 const hugeSize = "1000000000000"
 
@@ -121,7 +122,7 @@ func runCrashCase(c *crashCase) {
 	c.Outs = nil
 	if c.Entry == "repl" {
 		for _, t := range c.Texts {
-			c.Outs = append(c.Outs, runReplChild(c.Cfg, expandText(t), c.Src != "repl" || strings.Contains(t, "(def cy ")))
+			c.Outs = append(c.Outs, runReplChild(c.Cfg, expandText(t), c.Src != "repl" || strings.Contains(t, "(def cy "), hungLimitOf(c)))
 		}
 		return
 	}
@@ -181,7 +182,7 @@ func replChildMain(cfg string, lowStack bool) int {
 	return 0
 }
 
-func runReplChild(cfg, text string, lowStack bool) any {
+func runReplChild(cfg, text string, lowStack bool, limit time.Duration) any {
 	self, _ := os.Executable()
 	cmd := exec.Command(self, "crash", "-replchild", "-cfg", cfg)
 	if lowStack {
@@ -198,7 +199,7 @@ func runReplChild(cfg, text string, lowStack bool) any {
 	go func() { done <- cmd.Wait() }()
 	select {
 	case <-done:
-	case <-time.After(hungLimit):
+	case <-time.After(limit):
 		cmd.Process.Kill()
 		<-done
 		return []any{"hung"}
@@ -256,9 +257,12 @@ var workerMaxStack = func() int {
 }()
 
 func setStackFor(src string) {
-	if lowStackSrc[src] {
+	switch {
+	case src == "deep":
+		debug.SetMaxStack(workerMaxStack / 2) // the reader's bound of 10000 levels needs about 6 MB
+	case lowStackSrc[src]:
 		debug.SetMaxStack(workerMaxStack)
-	} else {
+	default:
 		debug.SetMaxStack(defaultMaxStack)
 	}
 }
@@ -546,10 +550,10 @@ func crashCases(c *common) []crashCase {
 	// (7) texts whose nesting is as deep as they are long, and flat texts that are long: one bracket or prefix
 	// kind repeated, closed and left open; as program text through every entry point, and as a string made by the
 	// script (doubling) and handed to the reader
-	const deepN = 400000
+	const deepN = 200000
 	opens := []struct{ open, close string }{{"(", ")"}, {"[", "]"}, {"{", "}"}, {"'", ""}, {"^", ""}, {"~", ""}, {"~@", ""}, {"(quote ", ")"}, {"(a ", ")"}, {"[1 ", "]"}, {"{a = ", "}"}, {"(fn [] ", ")"}, {"([{", "}])"}, {"(list 1 ", ")"}, {"{1 + ", "}"}, {"(- ", ")"}, {"a:", ""}, {"a.", ""}, {"- ", ""}, {"(quote (1 \\ ", "))"}}
 	for oi, o := range opens {
-		n := deepN / len(o.open)
+		n := deepN / max(1, len(o.open)/2)
 		body := rep(o.open, n)
 		closed := body + "1" + rep(o.close, n) + "\n"
 		open := body + "\n"
@@ -568,11 +572,11 @@ func crashCases(c *common) []crashCase {
 	}
 	wide := []string{
 		"(list " + rep("1 ", deepN) + ")\n", "[" + rep("1 ", deepN) + "]\n", "{" + rep("1 + ", deepN/20) + "1}\n",
-		"(quote (" + rep("a ", deepN) + "))\n", "(+ " + rep("1 ", deepN) + ")\n", rep("1 ", deepN) + "\n",
+		"(quote (" + rep("a ", deepN) + "))\n", "(+ " + rep("1 ", deepN) + ")\n", rep("1 ", deepN/4) + "\n",
 		"\"" + rep("s", 2*deepN) + "\"\n", rep("s", 2*deepN) + "\n", rep("(a)\n", deepN/4), "(hash " + rep("a: 1 ", deepN/4) + ")\n",
-		"(a" + rep(".b", deepN/2) + ")\n", rep("9", deepN) + "\n", "{" + rep("a;", deepN) + "}\n", "(cond " + rep("false 1 ", deepN/4) + "2)\n",
+		"(a" + rep(".b", deepN/2) + ")\n", rep("9", deepN) + "\n", "{" + rep("a;", deepN/4) + "}\n", "(cond " + rep("false 1 ", deepN/4) + "2)\n",
 		"(and " + rep("true ", deepN/4) + ")\n", "(begin " + rep("1 ", deepN/4) + ")\n", "(defn w [] " + rep("1 ", deepN/4) + ")\n(w)\n", "// " + rep("c", 2*deepN) + "\n1\n",
-		"/*" + rep("c\n", deepN/20) + "*/ 1\n", "(let [" + rep("a 1 ", deepN/8) + "] a)\n",
+		"/*" + rep("c\n", deepN/40) + "*/ 1\n", "(let [" + rep("a 1 ", deepN/8) + "] a)\n",
 	}
 	for wi, t := range wide {
 		addx("wide", entries[wi%3], "sandbox", none, t, "(+ 1 2)\n")
@@ -778,6 +782,9 @@ func hungLimitOf(c *crashCase) time.Duration {
 	if c.Src == "chan" {
 		return 8 * time.Second // a handful of evaluation steps
 	}
+	if c.Src == "deep" || c.Src == "wide" {
+		return 2 * hungLimit // hundreds of thousands of tokens, on a machine that may be busy
+	}
 	return hungLimit
 }
 
@@ -807,6 +814,10 @@ func crashWorker(in string, from int, out string, skipDeadly bool) int {
 			continue
 		}
 		setStackFor(c.Src)
+		grace := time.Duration(0)
+		if c.Entry == "repl" {
+			grace = 5 * time.Second // the REPL's process has the time limit, and is waited for
+		}
 		done := make(chan struct{})
 		go func() {
 			runCrashCase(&c)
@@ -814,7 +825,7 @@ func crashWorker(in string, from int, out string, skipDeadly bool) int {
 		}()
 		select {
 		case <-done:
-		case <-time.After(hungLimitOf(&c)):
+		case <-time.After(hungLimitOf(&c) + grace):
 			h := c
 			h.Outs = append(append([]any{}, c.Outs...), []any{"hung"})
 			b, _ := json.Marshal(h)
